@@ -27,6 +27,7 @@ NAME_CLASSES = {
     'dotted': ('a.b', 'a.b.c', 'a b.c d', 'v1.0-beta', '.ab', 'ab.'),
     'quote-edge': ('"ab"', "'ab'", '"', 'a"'),
     'nl': ('a\nb',),
+    'ws-edge': (' lead', 'trail ', ' both '),
 }
 
 ATTR_VALUES = (None, True, False, 0, 7, -3, 2.5, -0.25, 100.0, 'x', 'hello world', 'ünï', [], [1, 'a'], [True, [2, 3]],
